@@ -422,3 +422,103 @@ Definition missing_keys (l : list observed_fn) : list (aop * awidth) :=
   filter (fun k => negb (existsb (fun e : observed_fn =>
                                     aop_eqb (fst (fst e)) (fst k) && awidth_eqb (snd (fst e)) (snd k)) l))
          api_keys.
+
+(* ===================================================================== *)
+(* machine V: atomic.Value (runtime/internal/lib/sync/atomic/value.go)    *)
+(* ===================================================================== *)
+(* Store / Load on one Value; every pointer atomic (LoadPointer, CompareAndSwapPointer,
+   StorePointer) is one step.  The type word is nil, the marker firstStoreInProgress, or
+   the type of the stored values (one type: stores of differently typed values panic and
+   are not modelled); the data word is 0 (nil) or the stored pointer (a non-zero number).
+   [ro] = true is the variant with the two publishing stores of the first Store in the
+   wrong order (type before data); the code is [ro] = false. *)
+Inductive tword := TNil | TProg | TSet.
+Inductive vop := VStore (d : N) | VLoad.
+Inductive vpc :=
+| VStart     (* at LoadPointer(&vp.typ) *)
+| VCas       (* Store: at CompareAndSwapPointer(&vp.typ, nil, &firstStoreInProgress) *)
+| VSt1       (* first Store, CAS won: at the first StorePointer *)
+| VSt2       (* at the second StorePointer *)
+| VOver      (* later Store: at StorePointer(&vp.data) *)
+| VLd2.      (* Load: at LoadPointer(&vp.data) *)
+Inductive vres := VRStore | VRNil | VRVal (d : N).   (* VRVal 0: non-nil type word, nil data word *)
+
+Record vthread := mkVT { vprog : list vop; v_pc : vpc; vout : list vres }.
+Record vstate := mkVS { v_typ : tword; v_data : N; v_ths : list vthread }.
+
+Definition vfin (th : vthread) (rest : list vop) (r : vres) : vthread := mkVT rest VStart (vout th ++ [r]).
+Definition vgoto (th : vthread) (p : vpc) : vthread := mkVT (vprog th) p (vout th).
+
+Definition v_exec (ro : bool) (s : vstate) (t : nat) (th : vthread) (o : vop) (rest : list vop) : vstate :=
+  let upd_th x := upd (v_ths s) t x in
+  match o, v_pc th with
+  | VStore d, VStart =>
+      mkVS (v_typ s) (v_data s)
+           (upd_th (vgoto th (match v_typ s with TNil => VCas | TProg => VStart | TSet => VOver end)))
+  | VStore d, VCas =>
+      match v_typ s with
+      | TNil => mkVS TProg (v_data s) (upd_th (vgoto th VSt1))
+      | _ => mkVS (v_typ s) (v_data s) (upd_th (vgoto th VStart))
+      end
+  | VStore d, VSt1 =>
+      if ro then mkVS TSet (v_data s) (upd_th (vgoto th VSt2))
+      else mkVS (v_typ s) d (upd_th (vgoto th VSt2))
+  | VStore d, VSt2 =>
+      if ro then mkVS (v_typ s) d (upd_th (vfin th rest VRStore))
+      else mkVS TSet (v_data s) (upd_th (vfin th rest VRStore))
+  | VStore d, VOver => mkVS (v_typ s) d (upd_th (vfin th rest VRStore))
+  | VLoad, VStart =>
+      match v_typ s with
+      | TSet => mkVS (v_typ s) (v_data s) (upd_th (vgoto th VLd2))
+      | _ => mkVS (v_typ s) (v_data s) (upd_th (vfin th rest VRNil))
+      end
+  | VLoad, VLd2 => mkVS (v_typ s) (v_data s) (upd_th (vfin th rest (VRVal (v_data s))))
+  | _, _ => s
+  end.
+
+Definition v_step (ro : bool) (s : vstate) (t : nat) : option vstate :=
+  match nth_error (v_ths s) t with
+  | None => None
+  | Some th => match vprog th with [] => None | o :: rest => Some (v_exec ro s t th o rest) end
+  end.
+
+Fixpoint v_run (ro : bool) (sc : list nat) (s : vstate) : vstate :=
+  match sc with
+  | [] => s
+  | t :: sc' => match v_step ro s t with Some s' => v_run ro sc' s' | None => v_run ro sc' s end
+  end.
+
+Definition v_init (progs : list (list vop)) : vstate :=
+  mkVS TNil 0 (map (fun p => mkVT p VStart []) progs).
+
+Definition v_obs1 (s : vstate) : N :=
+  mask_from (fun _ th => match vprog th with [] => false | _ => true end) 0 (v_ths s).
+
+Fixpoint v_trace (sc : list nat) (s : vstate) : list N * vstate :=
+  match sc with
+  | [] => ([v_obs1 s], s)
+  | t :: sc' =>
+      match v_step false s t with
+      | Some s' => let (l, sf) := v_trace sc' s' in (v_obs1 s :: l, sf)
+      | None => ([v_obs1 s], s)
+      end
+  end.
+
+Definition vobservation : Type := list N * list (list vres) * (N * N).
+
+Definition v_observe (x : list (list vop) * list nat) : vobservation :=
+  let (progs, sc) := x in
+  let (tr, sf) := v_trace sc (v_init progs) in
+  (tr, map vout (v_ths sf), (match v_typ sf with TNil => 0 | TProg => 1 | TSet => 2 end, v_data sf)).
+
+Definition vres_eqb (a b : vres) : bool :=
+  match a, b with
+  | VRStore, VRStore | VRNil, VRNil => true
+  | VRVal x, VRVal y => N.eqb x y
+  | _, _ => false
+  end.
+
+Definition vobs_eqb (a b : vobservation) : bool :=
+  let '(t1, r1, (a1, b1)) := a in
+  let '(t2, r2, (a2, b2)) := b in
+  list_eqb N.eqb t1 t2 && list_eqb (list_eqb vres_eqb) r1 r2 && N.eqb a1 a2 && N.eqb b1 b2.
